@@ -1,13 +1,17 @@
-(* WebVTT reference parser, written from the WebVTT specification (not from pycaption):
-   (a) the cue-text tokenizer (data / escape / tag states) reduced to what a consumer displays:
-       character references &amp; &lt; &gt; &lrm; &rlm; &nbsp; are decoded, an unknown or unterminated
-       reference stays literal, everything from '<' to the next '>' is a tag and shows nothing;
+(* WebVTT reference parser, written from the WebVTT Recommendation (not from pycaption):
+   (a) the cue-text tokenizer (data / escape / tag states) reduced to what a consumer displays: in the escape
+       state an HTML character reference is consumed - a named reference of the HTML list (`html5_entities`, the
+       table of the Python standard library html.entities.html5, names with ';') or a decimal / hexadecimal numeric
+       reference; anything else that starts with '&' stays literal; everything from '<' to the next '>' is a tag and
+       shows nothing;
    (b) the block structure of a document: signature line, blocks separated by EMPTY lines, a cue starts at a
        line containing "-->" (also inside a block: the spec's cue-text loop stops at such a line), its payload
        is what follows up to the next such line or the end of the block.
+   Simplifications (never exercised by a writer that escapes '&'): references without the final ';' are literal;
+   numeric references to NUL, surrogates or beyond U+10FFFF show U+FFFD.
    Definitions only. *)
 From Coq Require Import List ZArith Bool.
-From PV Require Import lib.Sx lib.Str.
+From PV Require Import lib.Sx lib.Str model.GenText.
 Import ListNotations.
 Open Scope Z_scope.
 
@@ -16,15 +20,34 @@ Inductive vmode : Type := VData | VEsc (acc : str) | VTag.   (* acc reversed, st
 Definition is_alnum (c : Z) : bool :=
   is_digit c || ((65 <=? c) && (c <=? 90)) || ((97 <=? c) && (c <=? 122)).
 
-(* acc (in order) = "&name" ; result of seeing ';' *)
-Definition vtt_entity (name : str) : option Z :=
-  if str_eqb name (lit "&amp") then Some 38
-  else if str_eqb name (lit "&lt") then Some 60
-  else if str_eqb name (lit "&gt") then Some 62
-  else if str_eqb name (lit "&lrm") then Some 8206
-  else if str_eqb name (lit "&rlm") then Some 8207
-  else if str_eqb name (lit "&nbsp") then Some 160
-  else None.
+Fixpoint assoc_strs (k : str) (l : list (str * str)) : option str :=
+  match l with [] => None | (k', v) :: t => if str_eqb k k' then Some v else assoc_strs k t end.
+
+Definition hexv (c : Z) : option Z :=
+  if is_digit c then Some (c - 48)
+  else if (97 <=? c) && (c <=? 102) then Some (c - 87)
+  else if (65 <=? c) && (c <=? 70) then Some (c - 55) else None.
+Fixpoint num_val (base : Z) (s : str) (acc : Z) : option Z :=
+  match s with
+  | [] => Some acc
+  | c :: t => match hexv c with
+              | Some d => if d <? base then num_val base t (acc * base + d) else None
+              | None => None
+              end
+  end.
+Definition scalar (v : Z) : Z :=
+  if (v <=? 0) || (1114111 <? v) || ((55296 <=? v) && (v <=? 57343)) then 65533 else v.
+
+(* acc (in order) = "&name" : the text a complete reference "&name;" denotes *)
+Definition vtt_entity (name : str) : option str :=
+  match name with
+  | 38 :: 35 :: c :: ds =>
+      if (c =? 120) || (c =? 88) then
+        match ds with [] => None | _ => match num_val 16 ds 0 with Some v => Some [scalar v] | None => None end end
+      else match num_val 10 (c :: ds) 0 with Some v => Some [scalar v] | None => None end
+  | 38 :: n => assoc_strs n html5_entities
+  | _ => None
+  end.
 
 (* out is reversed *)
 Fixpoint vtt_display_aux (m : vmode) (s : str) (out : str) : str :=
@@ -39,10 +62,11 @@ Fixpoint vtt_display_aux (m : vmode) (s : str) (out : str) : str :=
       | VEsc acc =>
           if c =? 59 then
             match vtt_entity (rev acc) with
-            | Some v => vtt_display_aux VData t (v :: out)
+            | Some v => vtt_display_aux VData t (rev v ++ out)
             | None => vtt_display_aux VData t (59 :: acc ++ out)
             end
-          else if is_alnum c then vtt_display_aux (VEsc (c :: acc)) t out
+          else if is_alnum c || ((c =? 35) && (match acc with [38] => true | _ => false end))
+          then vtt_display_aux (VEsc (c :: acc)) t out
           else if c =? 38 then vtt_display_aux (VEsc [38]) t (acc ++ out)
           else if c =? 60 then vtt_display_aux VTag t (acc ++ out)
           else vtt_display_aux VData t (c :: acc ++ out)
